@@ -763,6 +763,22 @@ bool XMLScanner::emitErrorWillThrowException(const XMLErrs::Codes toEmit)
     return false;
 }
 
+void XMLScanner::checkEntityExpansionLimit()
+{
+    if (fSecurityManager != 0 && ++fEntityExpansionCount > fEntityExpansionLimit)
+    {
+        XMLCh expLimStr[32];
+        XMLString::sizeToText(fEntityExpansionLimit, expLimStr, 31, 10, fMemoryManager);
+        emitError
+        (
+            XMLErrs::EntityExpansionLimitExceeded
+            , expLimStr
+        );
+        // there seems nothing better to be done than to reset the entity expansion counter
+        fEntityExpansionCount = 0;
+    }
+}
+
 void XMLScanner::emitError(const XMLErrs::Codes toEmit)
 {
     // Bump the error count if it is not a warning
